@@ -3,7 +3,7 @@
    Proofs/Dgram_lemmas.v, followed by Print Assumptions.  Model: Model/Dgram.v (the code after
    the repairs F3, F4, F10, F16; `as_found` = the code before them).                          *)
 From Coq Require Import List NArith Ascii Bool.
-From SV Require Import Lib.Bytes Lib.DgramLib Model.Chan Model.Dgram Proofs.Dgram_lemmas Proofs.DgramServer_lemmas Gen.Consts.
+From SV Require Import Lib.Bytes Lib.DgramLib Model.Chan Model.Dgram Proofs.Dgram_lemmas Model.DgramSys Proofs.DgramServer_lemmas Proofs.DgramSystem_lemmas Proofs.DgramMixed_lemmas Gen.Consts.
 Import ListNotations.
 Local Open Scope N_scope.
 
@@ -64,10 +64,10 @@ Print Assumptions c11_one_to_one_capture_new.
 
 (* SERVER, udp_req: one UDP_DATA frame => exactly one sendto, identical payload, to the dialled (ip, port), on the one socket of the channel's UdpProxy (shared socket); a send error is logged *)
 Theorem c11_one_to_one_sendto :
-  forall ch s io hid u ip port payload,
+  forall fx ch s io hid u ip port payload,
   alookup N.eqb ch (s_udph s) = Some hid -> alookup N.eqb hid (s_h s) = Some (HUdp u) ->
   no_comma ip -> port <= 65535 ->
-  udp_req ch FUdpData (dgram_hdr (ip, port) payload) s io =
+  udp_req fx ch FUdpData (dgram_hdr (ip, port) payload) s io =
     Ok (s, snd (pop io),
         [SSendto (u_sock u) (ip, port) payload (match fst (pop io) with IoErr _ => false | _ => true end)]).
 Proof. exact udp_req_data_spec. Qed.
@@ -110,14 +110,15 @@ Theorem c11_idle_keep :
 Proof. exact expire_keeps. Qed.
 Print Assumptions c11_idle_keep.
 
-(* SERVER: UDP_CLOSE marks the channel's handler dead and removes the channel *)
+(* SERVER: UDP_CLOSE marks the channel's handler dead, removes the channel and (F80 repaired) forgets the
+   association at once *)
 Theorem c11_idle_expiry_server_close :
   forall ch data s io hid u,
   alookup N.eqb ch (s_udph s) = Some hid -> alookup N.eqb hid (s_h s) = Some (HUdp u) ->
-  exists s', udp_req ch FUdpClose data s io = Ok (s', io, []) /\
+  exists s', udp_req all_fixed ch FUdpClose data s io = Ok (s', io, []) /\
     alookup N.eqb hid (s_h s') = Some (HUdp (set_uok u false)) /\ mem ch (s_chan s') = false /\
-    s_udph s' = s_udph s.
-Proof. exact udp_close_spec. Qed.
+    s_udph s' = adel N.eqb ch (s_udph s).
+Proof. intros ch data s io hid u. exact (udp_close_spec all_fixed ch data s io hid u). Qed.
 Print Assumptions c11_idle_expiry_server_close.
 
 (* SERVER sweep: a dead UdpProxy leaves udphandlers, a live one stays (then c10_server_handler_retired-style removal: sstep_handlers_ok) *)
@@ -224,6 +225,99 @@ Print Assumptions c11_server_unbounded_channel_refuted.
 Example c11_server_conforming_example :
   run_no_reopen [] w_reopen_next_iteration /\ snd (srun all_fixed w_scfg s_init w_reopen_next_iteration) = Ok tt.
 Proof. split; [cbn; repeat split; discriminate|vm_compute; reflexivity]. Qed.
+
+(* SERVER, F80 repaired: no script whatsoever (16-bit identifiers) makes the loop leave through Fatal — with the
+   repair udphandlers and mux.channels are opened and closed together (clause si_udph_chan of `sinv`) *)
+Theorem c11_server_never_fatal :
+  forall cfg evs,
+    (forall e, In e evs -> forall f, In f (se_frames e) -> fst (fst (fst f)) <= 65535) ->
+    snd (srun all_fixed cfg s_init evs) <> Fatal.
+Proof. exact server_never_fatal. Qed.
+Print Assumptions c11_server_never_fatal.
+
+(* THE TWO-ENDED SYSTEM WITH DNS, UDP AND TCP-ACCEPT EVENTS MIXED (Proofs/DgramSystem_lemmas.v `ystep`,
+   Proofs/DgramMixed_lemmas.v).
+
+   Client-side lemma: whatever the client logic emits satisfies the server's preconditions.  For an accept step
+   from a reachable client state (cinv), any event the kernel can deliver (ev_sane: sizes; udp_dst_ok dst_ok: the
+   original destination of a UDP datagram is an address literal without comma and a 16-bit port), and any ghost
+   view T of the server's mux.channels whose members are UDP associations of the client (TR): the emitted frames
+   have 16-bit identifiers and well-formed bodies, never open an identifier of T (no_reopen), and T updated by
+   the frames (track) again consists of UDP associations of the new client state. *)
+Theorem c11_client_frames_conform :
+  forall cc c e c' o T q,
+  cfg_ok' cc -> cinv cc c -> is_accept e = true -> ev_sane cc c e -> udp_dst_ok dst_ok e ->
+  cstep all_fixed cc c e = Ok (c', o) -> TR T c ->
+  let new := flat_map (up_of q) o in
+  Forall chan16 new /\ Forall body_ok new /\ no_reopen T new /\ TR (track T new) c'.
+Proof. exact accept_conform. Qed.
+Print Assumptions c11_client_frames_conform.
+
+(* Hence, with NO hypothesis on identifier re-use: along every run of the composed system from y_init — any mix
+   of DNS queries, UDP datagrams (any sources, destinations, payloads) and TCP accepts, any schedule of server
+   iterations and deliveries, any socket outcomes, any times — the SERVER loop never raises and never leaves
+   through Fatal.  Side conditions, all visible in run_sane / step_sane: 1 <= MAX_CHANNEL <= 65535 and
+   family < 2^64 (cfg_ok'); listener events as the kernel delivers them (ev_sane, dst_ok); recvfrom peers as real
+   sockets report them (io_ok2: address text of at most 61000 bytes without comma, port < 2^64). *)
+Theorem c11_system_server_never_raises :
+  forall cc sc, cfg_ok' cc -> forall evs,
+  run_sane cc sc y_init evs -> server_never_fails cc sc y_init evs.
+Proof. intros cc sc H evs. apply (system_server_never_fails cc sc H). apply minv_init. Qed.
+Print Assumptions c11_system_server_never_raises.
+
+(* END TO END: under the single system-level hypothesis no_stale_alloc_any — whenever the client puts an opening
+   frame (DNS_REQ, UDP_OPEN, TCP_CONNECT) for identifier ch on the wire, nothing of a previous incarnation of ch
+   is in flight (no opening frame of ch on the up link, no handler of ch on the server, no frame of ch on the down
+   link) — NEITHER side ever raises nor leaves through Fatal (never_fails: at every event of the run the component
+   that handles it returns Ok), same runs and side conditions as above. *)
+Theorem c11_system_never_raises :
+  forall cc sc, cfg_ok' cc -> forall evs,
+  run_sane cc sc y_init evs -> no_stale_alloc_any cc sc y_init evs -> never_fails cc sc y_init evs.
+Proof. intros cc sc H evs. exact (system_never_fails_init cc sc H evs). Qed.
+Print Assumptions c11_system_never_raises.
+
+(* the system invariants behind the two theorems are inductive: from any state satisfying them *)
+Theorem c11_system_never_raises_inv :
+  forall cc sc, cfg_ok' cc -> forall evs y,
+  minv cc y -> kinv y -> run_sane cc sc y evs -> no_stale_alloc_any cc sc y evs -> never_fails cc sc y evs.
+Proof. exact system_never_fails. Qed.
+Print Assumptions c11_system_never_raises_inv.
+
+(* F80 (genuine defect, repaired in the model; pending_fixes/F80.diff): in the code as found the frames the CLIENT
+   emits kill the server.  One identifier (the scale model of "all other identifiers busy"): the association of w_a1
+   expires when w_a2 shows up, w_a2 re-uses identifier 1; UDP_CLOSE 1, UDP_OPEN 1, UDP_DATA 1 reach the server in
+   one read and udp_open raises Fatal('UDP connection channel 1 already open'); repaired, the second association
+   is opened.  `before_f80` = every repair but F80. *)
+Theorem c11_f80_refuted :
+  (exists y, ystate_after before_f80 w_cfgT1 w_scfg y_init w_f80_accepts = Some y /\
+             y_up y = [(1, FUdpClose, [], 0); (1, FUdpOpen, dec 2, 0); (1, FUdpData, dgram_hdr w_R ["b"%char], 0)] /\
+             sstep before_f80 w_scfg (y_s y) (sev_of y 1 3 [] []) = Fatal) /\
+  (exists y, ystate_after all_fixed w_cfgT1 w_scfg y_init w_f80_accepts = Some y /\
+             exists s' o, sstep all_fixed w_scfg (y_s y) (sev_of y 1 3 [] []) = Ok (s', o) /\ s_chan s' = [1]).
+Proof. exact f80_system. Qed.
+Print Assumptions c11_f80_refuted.
+
+(* F81 (known finding; needs incarnation numbers in the protocol): without no_stale_alloc_any the CLIENT can be
+   killed.  One identifier; the DNS query of w_a1 is pending at the server and expired at the client; the UDP
+   association of w_a2 re-uses identifier 1; the late DNS answer arrives on it and udp_done's split raises
+   ValueError.  The run is sane (run_sane) and violates only the hypothesis. *)
+Theorem c11_system_stale_crash_refuted :
+  run_sane w_cfgT1 w_scfg y_init (w_sys_clientcrash ++ [YDeliver SendOk]) /\
+  ~ never_fails w_cfgT1 w_scfg y_init (w_sys_clientcrash ++ [YDeliver SendOk]) /\
+  exists y, ystate_after all_fixed w_cfgT1 w_scfg y_init w_sys_clientcrash = Some y /\
+            y_down y = [(1, ["o"%char], Some 0)] /\
+            cstep all_fixed w_cfgT1 (y_c y) (EFrame 1 ["o"%char] SendOk) = Crash XValue.
+Proof.
+  split; [exact (proj1 clientcrash_system)|]. split; [exact clientcrash_not_never_fails|exact (proj2 clientcrash_system)].
+Qed.
+Print Assumptions c11_system_stale_crash_refuted.
+
+(* non-vacuity: a mixed run (DNS query and UDP association side by side, both replies delivered, the association
+   expired and closed, a third identifier opened) satisfies both hypotheses *)
+Example c11_system_mixed_example :
+  run_sane w_cfgTN w_scfg y_init w_sys_mixed /\ no_stale_alloc_any w_cfgTN w_scfg y_init w_sys_mixed /\
+  length (yrun w_cfgTN w_scfg y_init w_sys_mixed) = length w_sys_mixed.
+Proof. split; [exact (proj1 mixed_hyps)|]. split; [exact (proj2 mixed_hyps)|]. rewrite mixed_run. reflexivity. Qed.
 
 (* ---- the code as found: refuted ---- *)
 Theorem c11_f3_refuted : exists cfg evs,
